@@ -8,7 +8,7 @@ CHECKS = {
     "C35": {
         "text": "HashWriter.tla part 1 models the parallel hash writer of internal/checksumutils (dispatcher, W worker goroutines, two "
                 "ping-pong buffers, capacity-1 channels, one WaitGroup per buffer) as a concurrent state machine; TLC proves for all "
-                "interleavings (W=2, <=5 blocks; thorough also W=3) that no buffer is refilled while a worker may still read it, that "
+                "interleavings (W=2, <=5 blocks; thorough also W=3 and W=4, <=6 blocks) that no buffer is refilled while a worker may still read it, that "
                 "every worker hashes all blocks exactly once and in order, that Flush returns only after every hash consumed everything, "
                 "and that the protocol cannot deadlock. The model is bound to the code by replaying every worker schedule TLC enumerates "
                 "on the real writer with gated recording hash doubles that read their block late, and by TLC searching a placement of the "
@@ -118,7 +118,8 @@ def run(ctx):
     # ---- part 1: protocol.  design-level MC, all interleavings
     ctx.mc("HashWriter", "HashWriter.MC.cfg", workers=4, timeout=900)
     if not ctx.quick():
-        ctx.mc("HashWriter", "HashWriter.MC.cfg", workers=8, timeout=1500, subst={"W": "3", "NS": "{0, 1, 2, 3, 4}"})
+        ctx.mc("HashWriter", "HashWriter.MC.cfg", workers=4, timeout=1500, subst={"W": "3", "NS": "{0, 1, 2, 3, 4, 5, 6}"})
+        ctx.mc("HashWriter", "HashWriter.MC.cfg", workers=8, timeout=1500, subst={"W": "4", "NS": "{0, 1, 2, 3, 4, 5, 6}"})
     m = ctx.tlc("HashWriter", "HashWriter.Mutant.cfg", workers=1, timeout=300, count_mc=False)
     if m.outcome != "invariant" or m.violated != "NoRefillWhileRead":
         raise vlib.Infra("vacuity guard: the model without wgs[active].Wait() must violate NoRefillWhileRead, got %s %s" %
@@ -246,7 +247,7 @@ def run(ctx):
     if "protocol_replay_stuck" in ctx.extra and ctx.violations == 0:
         raise vlib.Infra("protocol replay stuck and no value case explains it: " + ctx.extra["protocol_replay_stuck"])
     ctx.assumptions += [
-        "TLA+ contributes the protocol proof by model checking (W<=3 workers, <=5 blocks) and the schedule/length enumeration; "
+        "TLA+ contributes the protocol proof by model checking (W<=4 workers, <=6 blocks) and the schedule/length enumeration; "
         "bit-level correctness of the digests and of the GF(2) CRC combine is established on the enumerated inputs only",
         "value oracle = one-shot crypto/md5, crypto/sha1, crypto/sha256, hash/crc32 (IEEE, Castagnoli) and hash/crc64 with "
         "MakeTable(0x9a6c9329ac4bc9b5) over the concatenated bytes (the property's own definition); the Go standard library is trusted",
